@@ -84,6 +84,7 @@ def stmts_ops(stmts, var):
         elif isinstance(st, ast.Return):
             if st.value is not None and norm(st.value) != var:
                 ops += expr_ops(st.value, var)
+            return ops          # nothing after a return executes
         else:
             raise NotInFragment(f"statement `{norm(st).splitlines()[0]}` outside the fragment")
     return ops
@@ -135,7 +136,8 @@ def method_branches(fn: ast.FunctionDef, var="value", flag="inplace"):
     pre = body[:body.index(st)]
     post = body[body.index(st) + 1:]
     a, b = (st.body, st.orelse) if norm(st.test) == flag else (st.orelse, st.body)
-    return (segments(stmts_ops(pre + a + post, var)), segments(stmts_ops(pre + b + post, var)))
+    ends = lambda blk: bool(blk) and isinstance(blk[-1], (ast.Return, ast.Raise))
+    return (segments(stmts_ops(pre + a + ([] if ends(a) else post), var)), segments(stmts_ops(pre + b + ([] if ends(b) else post), var)))
 
 
 def show(segs):
